@@ -4,7 +4,9 @@
    Decode: empty result if a character is outside the alphabet; otherwise the
    minimal big-endian bytes of the number, preceded by one zero byte per leading
    alphabet-zero character.  (The 10-digit chunking of the Go code is an
-   arithmetic optimisation: it computes the same Horner value.)  No proofs. *)
+   arithmetic optimisation: it computes the same Horner value.)  The text is its
+   UTF-8 bytes: Go ranges over runes and refuses every rune >= 128 and U+FFFD,
+   all of whose bytes are >= 128 and outside the alphabet.  No proofs. *)
 From Coq Require Import List ZArith NArith Bool.
 Require Import Mixin.Gen.Consts.
 Import ListNotations.
